@@ -106,3 +106,35 @@ Qed.
 
 Lemma coam_fees_exact k : coam k == coam_pre k + redrill_amortised k + k_annual_fee k - k_taxrelief k.
 Proof. unfold coam. reflexivity. Qed.
+
+(* district network: a supplied total is used verbatim; otherwise cost = rate x length / 1000 with the length chosen by the
+   documented precedence (piping length, 75 % of road length, population density), and the density-based length is at least
+   1 km per km2 and at most 7.5 km per km2 when the area is non-negative *)
+Lemma dh_cost_cases d :
+  (d_total_provided d = true -> dh_network_cost d = d_total d) /\
+  (d_total_provided d = false -> d_piping_provided d = true -> dh_network_cost d == d_rate d * d_piping_len d / 1000) /\
+  (d_total_provided d = false -> d_piping_provided d = false -> d_road_provided d = true ->
+     dh_network_cost d == d_rate d * ((75 # 100) * d_road_len d) / 1000) /\
+  (d_total_provided d = false -> d_piping_provided d = false -> d_road_provided d = false ->
+     dh_network_cost d == d_rate d * dh_length_from_density d / 1000).
+Proof.
+  unfold dh_network_cost. repeat split.
+  - intros H. now rewrite H.
+  - intros H1 H2. rewrite H1, H2. unfold Qdiv. ring.
+  - intros H1 H2 H3. rewrite H1, H2, H3. unfold Qdiv. ring.
+  - intros H1 H2 H3. rewrite H1, H2, H3. reflexivity.
+Qed.
+
+Lemma dh_length_bounds d : 0 <= d_area d -> 0 <= dh_density d ->
+  d_area d <= dh_length_from_density d /\ dh_length_from_density d <= (75 # 10) * d_area d.
+Proof.
+  intros Ha Hr. unfold dh_length_from_density. cbv zeta. destruct (Qltb 1000 (dh_density d)) eqn:E.
+  - split; [nra | apply Qle_refl].
+  - assert (Hle : dh_density d <= 1000).
+    { destruct (Qlt_le_dec 1000 (dh_density d)) as [Hlt|]; [|assumption]. apply Qltb_true in Hlt. congruence. }
+    split; [apply Q.le_max_r|]. apply Q.max_lub; [|nra].
+    assert (dh_density d / 1000 <= 1) by (apply Qle_shift_div_r; lra).
+    assert (0 <= (75 # 10) * d_area d) by nra.
+    assert (dh_density d / 1000 * ((75 # 10) * d_area d) <= 1 * ((75 # 10) * d_area d)) by (apply Qmult_le_compat_r; assumption).
+    lra.
+Qed.
